@@ -233,11 +233,16 @@ func c13Applier(c *core.Ctx, res *core.Result) {
 		return to
 	}
 	feat := map[string]string{"kind": "applier", "split_inside_transaction": fmt.Sprint(splitInsideTx)}
+	var holed []rhEntry // when set, deliver sends this instead of h[from:to] (same first and last entry, a unit missing inside)
 	deliver := func(kind string, from, to int) bool {
 		if from >= to {
 			return true
 		}
 		msg := toProto(h[from:to])
+		if holed != nil {
+			msg = toProto(holed)
+			holed = nil
+		}
 		before, _, _ := al.status()
 		maxApplied, gap, err := ap.ApplyEntries(msg, al.Apply)
 		trace = append(trace, fmt.Sprintf("%s entries [%d,%d) seq %d..%d -> applied up to %d gap=%v err=%v", kind, from, to, h[from].e.SequenceNumber, h[to-1].e.SequenceNumber, maxApplied, gap, err != nil))
@@ -271,7 +276,35 @@ func c13Applier(c *core.Ctx, res *core.Result) {
 		}
 		exp := ap.GetExpectedNext()
 		from := headOfSeq(h, exp)
-		switch r.Pick(50, 12, 12, 12, 8) {
+		switch r.Pick(50, 12, 12, 12, 8, 8) {
+		case 5: // starts at the expected sequence, but a whole unit is missing further in (the sender could not read it)
+			to := from + r.Range(3, 14)
+			if to > len(h) {
+				to = len(h)
+			}
+			for to < len(h) && h[to].unit == h[to-1].unit {
+				to++
+			}
+			var inner []int // unit heads strictly inside (from, to) whose unit also ends before to
+			for _, x := range heads {
+				if x > from && x < to && h[x].unit != h[from].unit && h[to-1].unit != h[x].unit {
+					inner = append(inner, x)
+				}
+			}
+			if len(inner) == 0 {
+				continue
+			}
+			x := inner[r.Intn(len(inner))]
+			y := x
+			for y < to && h[y].unit == h[x].unit {
+				y++
+			}
+			hostile++
+			res.Count("messages_with_interior_hole", 1)
+			holed = append(append([]rhEntry{}, h[from:x]...), h[y:to]...)
+			if !deliver(fmt.Sprintf("hole(seq %d missing)", h[x].e.SequenceNumber), from, to) {
+				return
+			}
 		case 0: // honest retransmission from the expected sequence
 			if !deliver("honest", from, cut(from)) {
 				return
@@ -438,6 +471,7 @@ type fakePrimary struct {
 	acks     []uint64
 	trace    []string
 	maxStart uint64
+	holes    int
 }
 
 func (f *fakePrimary) StreamWAL(req *rp.WALStreamRequest, st rp.WALReplicationService_StreamWALServer) error {
@@ -489,7 +523,32 @@ func (f *fakePrimary) StreamWAL(req *rp.WALStreamRequest, st rp.WALReplicationSe
 				continue
 			}
 		}
-		switch rr.Pick(60, 10, 10, 8, 6, 6) {
+		switch rr.Pick(60, 10, 10, 8, 6, 6, 6) {
+		case 6: // starts where the replica is, but one unit further in is missing
+			to := cut(cut(cut(pos)))
+			var inner []int
+			for _, x := range heads {
+				if x > pos && x < to && h[x].unit != h[pos].unit && h[to-1].unit != h[x].unit {
+					inner = append(inner, x)
+				}
+			}
+			if len(inner) > 0 {
+				x := inner[rr.Intn(len(inner))]
+				y := x
+				for y < to && h[y].unit == h[x].unit {
+					y++
+				}
+				f.mu.Lock()
+				f.trace = append(f.trace, fmt.Sprintf("stream %d: entries [%d,%d) seq %d..%d WITHOUT [%d,%d) (seq %d missing inside the message)", n, pos, to, h[pos].e.SequenceNumber, h[to-1].e.SequenceNumber, x, y, h[x].e.SequenceNumber))
+				f.hostile++
+				f.holes++
+				f.mu.Unlock()
+				msg := append(append([]rhEntry{}, h[pos:x]...), h[y:to]...)
+				if err := st.Send(&rp.WALStreamResponse{Entries: toProto(msg)}); err != nil {
+					return err
+				}
+				pos = x
+			}
 		case 0:
 			to := cut(pos)
 			if err := send("honest", pos, to); err != nil {
@@ -562,6 +621,7 @@ func c13Replica(c *core.Ctx, res *core.Result) {
 		hostile  int
 		streams  int
 		entries  int
+		holes    int
 		trace    string
 	}
 	var outs []outcome
@@ -630,7 +690,7 @@ func c13Replica(c *core.Ctx, res *core.Result) {
 			}
 			pos, bad, _ := al.status()
 			fp.mu.Lock()
-			o.hostile, o.streams, o.trace = fp.hostile, fp.streams, tail(fp.trace, 50)
+			o.hostile, o.streams, o.holes, o.trace = fp.hostile, fp.streams, fp.holes, tail(fp.trace, 50)
 			// a request that starts beyond an entry that was never applied is a skip
 			if o.bad == "" && bad == "" && pos < len(h) {
 				for _, st := range fp.starts {
@@ -657,6 +717,7 @@ func c13Replica(c *core.Ctx, res *core.Result) {
 	for _, o := range outs {
 		hostile += o.hostile
 		streams += o.streams
+		res.Count("messages_with_interior_hole", int64(o.holes))
 		sigs = append(sigs, fmt.Sprint(o.entries, o.hostile, o.streams))
 		if o.bad != "" {
 			res.Violate("apply_order", fmt.Sprintf("real Replica against a scripted primary: %s\nprimary-side trace:\n%s", o.bad, o.trace), map[string]string{"kind": "replica"})
